@@ -266,6 +266,19 @@ func mutantsOf(base string, doc any, rng *PRNG, budget int) []mutant {
 			return true
 		})
 	}
+	// a path key that does not start with a slash (the loader accepts it)
+	targeted("path-no-slash", func(p []string, pm map[string]any, k string) bool {
+		if len(p) != 2 || p[0] != "paths" || !strings.HasPrefix(k, "/") || len(k) < 2 {
+			return false
+		}
+		nk := strings.ReplaceAll(k[1:], "/", "-")
+		if _, exists := pm[nk]; exists {
+			return false
+		}
+		pm[nk] = pm[k]
+		delete(pm, k)
+		return true
+	})
 	targeted("array-no-items", func(p []string, pm map[string]any, k string) bool {
 		if k != "items" {
 			return false
